@@ -12,6 +12,8 @@ def parseDesc (t : String) : Desc :=
   | 'E' :: r => .echo (String.ofList r).toNat! true
   | ['f'] => .fail false
   | ['F'] => .fail true
+  | ['u'] => .unser false
+  | ['U'] => .unser true
   | 's' :: r =>
     match (String.ofList r).splitOn "p" with
     | [n, p] => .sub n.toNat! p.toNat!
@@ -23,6 +25,8 @@ def descTok : Desc → String
   | .echo v true => "E" ++ toString v
   | .fail false => "f"
   | .fail true => "F"
+  | .unser false => "u"
+  | .unser true => "U"
   | .sub n p => "s" ++ toString n ++ (if p = 0 then "" else "p" ++ toString p)
   | .garbage => "g"
 
@@ -122,10 +126,15 @@ def handle (ts : List String) : String :=
       let m := String.join (decls.map fun d =>
           let o := outOf d.id
           " " ++ toString d.id ++ "=" ++ (if o.isEmpty then "-" else ",".intercalate (o.map tokStr))) ++
-        " L" ++ String.join (s.served.map fun p => " " ++ toString p.1 ++ ":" ++ descTok p.2) ++ " X alive"
+        " L" ++ String.join (s.served.map fun p => " " ++ toString p.1 ++ ":" ++ descTok p.2) ++
+        " G " ++ (if s.wlog.isEmpty then "-" else ",".intercalate (s.wlog.map toString)) ++ " X alive"
       -- oracle on the implementation's observation
       let (oouts, o1) := splitAt "L" obs
-      let (olog, ox) := splitAt "X" o1
+      let (olog, o2) := splitAt "G" o1
+      let (og, ox) := splitAt "X" o2
+      let implG : List Nat := match og with
+        | [l] => if l = "-" then [] else (l.splitOn ",").map String.toNat!
+        | _ => []
       let implOut (i : Nat) : List Tok :=
         match oouts.find? (fun t => (t.splitOn "=").head? == some (toString i)) with
         | some t => match t.splitOn "=" with
@@ -145,5 +154,18 @@ def handle (ts : List String) : String :=
         | some d => (SpecSrv.refServedCredit (d.credit + creditFor es d.id) d.descs).length
         | none => 0
       let h := h && (!(ts.contains "F1") || SpecSrv.fairOK total (decls.map (·.id)) logIds)
+      -- `SV1`: a reply stream against waiting calls, judged on the global order of the writes
+      let isStreamer (d : CDecl) : Bool := d.descs.any fun x => match x with | .sub _ _ => true | _ => false
+      let h := h && (!(ts.contains "SV1") ||
+        SpecSrv.svOK ((decls.filter fun d => !isStreamer d && !d.descs.isEmpty).map (·.id)) ((decls.filter isStreamer).map (·.id)) implG)
+      -- `F2 H<n0>,<n1>,..`: fairness after a history; the first `n_i` calls of client `i` belong to the history, the
+      -- clients that were closed are out of the fixed set
+      let hist : List Nat := match (ts.takeWhile (· != "D")).find? (fun t => t.startsWith "H") with
+        | some t => ((t.drop 1).toString.splitOn ",").map String.toNat!
+        | none => []
+      let closed (i : Nat) : Bool := es.contains ("x" ++ toString i)
+      let histOf (i : Nat) : Nat := match (decls.zip hist).find? (fun p => p.1.id == i) with | some p => p.2 | none => 0
+      let h := h && (!(ts.contains "F2") ||
+        SpecSrv.fairOK (fun i => total i - histOf i) ((decls.filter fun d => !closed d.id).map (·.id)) (logIds.drop hist.sum))
       "M" ++ m ++ " | H " ++ (if h then "1" else "0")
 end DriverSrv
